@@ -46,6 +46,7 @@ func (c *Ctx) implementersOf(pkgRel string, iface *types.Interface) []*types.Nam
 }
 
 func c06(c *Ctx) {
+	c.singleIDHeader("R06.7")
 	P, R := c.P, c.R
 	R.Explain("R06.1", "T-MUST exactly once: in user.apply every path to a return calls update.Done(err) exactly once with the error it returns; Done has no other caller; the update goroutine calls apply for every received update and its error branch neither returns nor breaks.")
 	R.Explain("R06.2", "T-EXHAUST: the type switch in user.apply has a case for every concrete imap.Update type.")
